@@ -47,6 +47,15 @@ IsPrefix(a, b) == Len(a) <= Len(b) /\ SubSeq(b, 1, Len(a)) = a
 (* "decodes to the same list" - each time the same cached bytes are decoded *)
 C12_EveryDecodeGivesTheList == \A i \in 1..2 : /\ IsPrefix(outs[i], list)
                                                /\ fin[i] => (outs[i] = list /\ ~its[i].err)
+(* which decoder reads which entry: the entry points that must read an encoding do, every other *)
+(* combination refuses (never a different list)                                                  *)
+Encs == {"dvs", "dss", "dss2", "be32"}
+Decs == {"hdr", "cached", "dvs", "dss"}
+MustRead == { <<"dvs", "hdr">>, <<"dvs", "cached">>, <<"dvs", "dvs">>, <<"dss", "hdr">>, <<"dss", "cached">>, <<"dss", "dss">>,
+              <<"dss2", "hdr">>, <<"dss2", "cached">>, <<"dss2", "dss">>, <<"be32", "cached">> }
+ASSUME \A enc \in Encs : \A dec \in Decs :
+          DecodeOutcome(enc, dec) = (IF <<enc, dec>> \in MustRead THEN "list" ELSE "refuse")
+
 (* decoding never modifies the cached bytes *)
 CachedBytesIntact == mem = MMem(ChunksOf, kinds)
 =============================================================================
